@@ -327,7 +327,8 @@ impl<'c> G<'c> {
                 1 => TplPart::Lit(s.pick(&TPL_LITS).to_string()),
                 2 => TplPart::Num,
                 3 => TplPart::Bool,
-                4 => TplPart::OneOf(vec!["a".into(), "b".into()]),
+                // (now and then one of the alternatives is the empty string)
+                4 => if s.chance(1, 3) { TplPart::OneOf(vec!["".into(), "b".into()]) } else { TplPart::OneOf(vec!["a".into(), "b".into()]) },
                 _ => TplPart::Lit(s.pick(&TPL_LITS).to_string()),
             };
             // no two adjacent literals (they would be one quasi)
